@@ -28,7 +28,8 @@ TRACE = ("mkdir,mkdirat,symlink,symlinkat,mknod,mknodat,open,openat,creat,lsetxa
          "renameat2,link,linkat,truncate,rmdir,removexattr,lremovexattr,chroot,mount")
 ALLFLAGS = ["".join(c for c, b in zip("COXT", bits) if b) or "-" for bits in
             [[(i >> k) & 1 for k in range(4)] for i in range(16)]]
-WORKERS = 6
+WORKERS = max(1, int(os.environ.get("VERIF_JOBS", "6")))     # parallel rdsquashfs+strace runs
+CASE_TIMEOUT = 300          # seconds; an idle machine needs ~0.1 s per case
 
 
 def hx(b):
@@ -211,7 +212,7 @@ def lstat_rec(p):
     return rec, st
 
 
-def snapshot(outer, R):
+def snapshot(outer, R, parent_mtime=False):
     """everything under `outer` except what lies strictly below R; R itself without its mtime/size"""
     snap = {}
     ob, Rb = os.fsencode(outer), os.fsencode(R)
@@ -222,7 +223,7 @@ def snapshot(outer, R):
         rec, st = lstat_rec(p)
         if p == Rb:
             continue                    # R itself: compared separately (it may be created by the run: mkdir_p)
-        if p != Rparent:
+        if p != Rparent or parent_mtime:
             rec["mtime"] = st.st_mtime_ns      # creating R changes its parent's mtime
         if stat.S_ISDIR(st.st_mode):
             rec["entries"] = sorted(x.hex() for x in os.listdir(p) if p + b"/" + x != Rb)
@@ -397,7 +398,7 @@ def phase_split(seq):
 SKIP_RE = re.compile(rb"Found an entry named '(.*?)', skipping\.\n", re.S)
 
 
-def run_case(ctx, rd, idx, label, tree, flags, upath, precreate, model_line=None):
+def run_case(ctx, rd, idx, label, tree, flags, upath, precreate, timeout=CASE_TIMEOUT):
     """returns dict(result record).  Does not touch ctx (thread-safe)."""
     base = ctx.scratch / ("case%d" % idx)
     if base.exists():
@@ -416,7 +417,7 @@ def run_case(ctx, rd, idx, label, tree, flags, upath, precreate, model_line=None
         cmd = ["strace", "-f", "-xx", "-s", "70000", "-o", str(base / "st.log"), "-e", "trace=" + TRACE,
                str(rd), "-q", "-u", os.fsdecode(upath), "-p", "R"] + fl + [str(img)]
         try:
-            r = subprocess.run(cmd, cwd=str(jail), env=ctx.san_env(), stdout=subprocess.PIPE, stderr=subprocess.PIPE, timeout=120)
+            r = subprocess.run(cmd, cwd=str(jail), env=ctx.san_env(), stdout=subprocess.PIPE, stderr=subprocess.PIPE, timeout=timeout)
             rc, err = r.returncode, r.stderr
         except subprocess.TimeoutExpired:
             rc, err = "timeout", b""
@@ -587,7 +588,7 @@ def posix_probe(ctx, n):
         # no "." target: a followed utimens on R itself changes only R's mtime, which the snapshot cannot tell from entry creation
         targets = [b"../dd", b"../ff", b"a", b"b", b"..", b"t", b"s", os.fsencode(str(base / "j" / "dd")), b"../nonexist", os.fsencode(str(base / "j" / "nonexistent_abs"))]
         scs, res = [], []
-        before = snapshot(top, R)
+        before = snapshot(top, R, parent_mtime=True)
         R_before = lstat_rec(R)[0]
         cwd = os.getcwd()
         os.chdir(R)
@@ -618,7 +619,7 @@ def posix_probe(ctx, n):
                 scs.append(tok); res.append(r)
         finally:
             os.chdir(cwd)
-        escaped = bool(diff_snap(before, snapshot(top, R))) or lstat_rec(R)[0] != R_before
+        escaped = bool(diff_snap(before, snapshot(top, R, parent_mtime=True))) or lstat_rec(R)[0] != R_before
         lines.append("monitor /%s %d %s %s" % ("/".join(x.hex() for x in absR), len(ents), " ".join(ents), " ".join(scs)))
         reals.append((scs, res, escaped))
         shutil.rmtree(top, ignore_errors=True)
@@ -699,10 +700,16 @@ def run(ctx):
     cases, ncorpus, nbuiltin, nrand = build_cases(ctx)
     ctx.log("cases: %d corpus, %d builtin x flags, %d random" % (ncorpus, nbuiltin, nrand))
     recs = []
-    with concurrent.futures.ThreadPoolExecutor(max_workers=WORKERS if not ctx.quick() else 8) as ex:
+    with concurrent.futures.ThreadPoolExecutor(max_workers=WORKERS) as ex:
         futs = [ex.submit(run_case, ctx, rd, i, lab, t, fl, up, pre) for i, (lab, t, fl, up, pre) in enumerate(cases)]
         for f in futs:
             recs.append(f.result())
+    # a timeout under load is not a finding: re-run such cases alone with a much longer limit
+    for i, r in enumerate(recs):
+        if r["rc"] == "timeout":
+            lab, t, fl, up, pre = cases[i]
+            ctx.log("case %d timed out under load; re-running it in isolation" % i)
+            recs[i] = run_case(ctx, rd, i, lab, t, fl, up, pre, timeout=6 * CASE_TIMEOUT)
     ctx.log("implementation runs done")
     execs = ctx.driver(["c06"], "\n".join(model_request(r, "exec") for r in recs) + "\n", timeout=3000)
     plans = ctx.driver(["c06"], "\n".join(model_request(r, "plan") for r in recs) + "\n", timeout=3000)
